@@ -26,7 +26,16 @@ import (
 
 var workDir, binPath string
 
-func binFile() string { return filepath.Join(os.Getenv("VERIF_DIR"), "work", "mltwist-c26") }
+// binFile is private to one run (parent pid in the name, handed to the shards through the
+// environment): concurrent runs against different trees must not share the binary.
+func binFile() string {
+	if p := os.Getenv("VERIF_BIN_C26"); p != "" {
+		return p
+	}
+	p := filepath.Join(os.Getenv("VERIF_DIR"), "work", fmt.Sprintf("mltwist-c26-%d", os.Getpid()))
+	os.Setenv("VERIF_BIN_C26", p)
+	return p
+}
 
 func parentSetup(string) error {
 	repo := os.Getenv("VERIF_REPO_DIR")
